@@ -389,10 +389,35 @@ int FUNC(verify)(jwt_common_t *__cmd, const char *token)
 	config.alg = __cmd->c.alg;
 	config.ctx = __cmd->c.cb_ctx;
 
-	/* Let the user handle this and update config */
-        if (__cmd->c.cb && __cmd->c.cb(jwt, &config)) {
-		jwt_write_error(__cmd, "User callback returned error");
-		return 1;
+	/* Let the user handle this and update config. The callback may inspect
+	 * the token, but whatever it does to the jwt_t must not change the
+	 * rest of the process: verification continues with the headers and
+	 * claims exactly as they were parsed. */
+	if (__cmd->c.cb) {
+		json_t *headers = json_deep_copy(jwt->headers);
+		json_t *claims = json_deep_copy(jwt->claims);
+		int ret;
+
+		if (headers == NULL || claims == NULL) {
+			// LCOV_EXCL_START
+			json_decref(headers);
+			json_decref(claims);
+			jwt_write_error(__cmd, "Could not allocate JWT object");
+			return 1;
+			// LCOV_EXCL_STOP
+		}
+
+		ret = __cmd->c.cb(jwt, &config);
+
+		json_decref(jwt->headers);
+		jwt->headers = headers;
+		json_decref(jwt->claims);
+		jwt->claims = claims;
+
+		if (ret) {
+			jwt_write_error(__cmd, "User callback returned error");
+			return 1;
+		}
 	}
 
 	/* Callback may have changed this */
